@@ -226,6 +226,15 @@ def c_factorize_multiple(ex, st, a, k, node):
 def c_initialize_aggregation(ex, st, a, k, node):
     func = a[0]
     outs = []
+    # call-site protocol (C08 / C05 anchor "min_count=1 forced so that absent groups are filled"): stated over the ENTRY values of
+    # the caller's parameters only - with requested groups for every grouper and a user fill_value (and no explicit min_count)
+    # the aggregation is initialised with masking on
+    e = getattr(ex, "entry", None) or {}
+    eg = e.get("expected_groups")
+    if e.get("min_count", 0) is None and e.get("fill_value") is not None and eg is not None and all(x is not None for x in eg) and len(a) >= 5:
+        mc = a[4]
+        ex.oblige(st, (to_z3(mc) >= 1) if (is_sym(mc) or isinstance(mc, int)) else z3.BoolVal(False), ex._name("plan.masking_on_when_groups_are_requested_with_a_fill", node),
+                  f"line {node.lineno}: requested groups + user fill_value: min_count handed to _initialize_aggregation is >= 1 (absent and all-missing groups are masked with the fill)")
     name = func.fields["name"] if isinstance(func, Record) else func
     rtype = func.fields["reduction_type"] if isinstance(func, Record) else z3.String(f"rtype!{fresh('r').decl().name()}")
     for chunk_none in (False, True):
